@@ -626,7 +626,7 @@ func (k *c12run) dates() {
 		anchor := gedcom.NewDateNode(c12dateStr(k.r.Range(1, c12dim(m, y)), m, y))
 		type pt struct {
 			dist, sim float64
-			val      string
+			val       string
 		}
 		var pts []pt
 		for s := 0; s < 40; s++ {
@@ -854,7 +854,9 @@ func c12wife(f *gedcom.FamilyNode) *gedcom.IndividualNode {
 	return nil
 }
 
-func (e *c12env) fam(f *gedcom.FamilyNode) string { return e.indi(c12husb(f)) + "&" + e.indi(c12wife(f)) }
+func (e *c12env) fam(f *gedcom.FamilyNode) string {
+	return e.indi(c12husb(f)) + "&" + e.indi(c12wife(f))
+}
 
 func (e *c12env) surround(x *gedcom.IndividualNode) string {
 	var fams []string
@@ -1167,6 +1169,85 @@ func (k *c12run) sharedLists() {
 	}
 }
 
+// tieShapes: decisions that sit EXACTLY on a tie in the exact model, where the float64 implementation
+// may go either way by the last bit. They run on every check so that the handling is exercised:
+//   - dates exactly MaxYears apart (cut-off `> 1 -> 0`): both sides give 0 within 1e-9 (the parabola is
+//     continuous there) — compared normally;
+//   - Jaro exactly equal to the boost threshold as a fraction (7/10 is not a float64; the code's j is
+//     0.70000000000000007 and takes the boost, the exact model does not): flagged `tight` by the driver,
+//     compared as inconclusive;
+//   - DATE lists whose Minimum rests on an exact tie of Years() (`Dec 1880` = midpoint of 1 and 31 Dec =
+//     `16 Dec 1880`; float64 says 1880.9564032697549 > 1880.9564032697547): flagged, inconclusive;
+//   - list cells exactly at MinimumSimilarity, equal cells from different data: flagged, inconclusive.
+func (k *c12run) tieShapes() {
+	c := k.c
+	for _, p := range []struct {
+		a, b string
+		my   c12rat
+	}{{"2 Jul 1881", "2 Jul 1884", c12rat{3, 1}}, {"Dec 1880", "Dec 1883", c12rat{3, 1}}, {"1881", "1884", c12rat{3, 1}},
+		{"Jun 1881", "Jun 1884", c12rat{3, 1}}, {"1 Jan 1900", "1 Jan 1905", c12rat{5, 1}}, {"Feb 1900", "Feb 1910", c12rat{10, 1}},
+		{"1900", "2 Jul 1900", c12rat{1, 2}}, {"Dec 1880", "16 Dec 1880", c12rat{3, 1}}, {"1900", "1901", c12rat{1, 1}},
+		{"Bet. 1900 and 1902", "1904", c12rat{3, 1}}, {"2 Jul 1901", "1901", c12rat{1, 1}}, {"15 Jan 1900", "15 Jan 1902", c12rat{2, 1}}} {
+		a, b := gedcom.NewDateNode(p.a), gedcom.NewDateNode(p.b)
+		k.datePair(a, b, p.my)
+		k.datePair(b, a, p.my)
+		c.Count("tie-shape:dates exactly MaxYears apart / equal Years()")
+	}
+	long := "ab" + strings.Repeat("c", 18) // jaro(long, "ab") = 7/10
+	seventeen := strings.Repeat("a", 17)   // jaro(a^17 xxx, a^17 yyy) = 9/10
+	for _, p := range [][2]string{{long, "ab"}, {"abbb", "accc"}, {seventeen + "xxx", seventeen + "yyy"}, {"ab", long}} {
+		for _, t := range []c12rat{{7, 10}, {1, 2}, {9, 10}} {
+			k.jw(p[0], p[1], t, 4, true)
+			k.strsim(p[0], p[1], t, 4)
+			c.Count("tie-shape:Jaro exactly at the boost threshold")
+		}
+	}
+	// individuals whose estimated dates are selected on a tie, nameless / dateless people (score exactly
+	// 1/2 with ratio 0), only-birth vs only-death twins (equal cells from different data)
+	text := "0 @T0@ INDI\n1 NAME Ann /Tie/\n1 BIRT\n2 DATE Bet. Dec 1880 and 1890\n2 DATE 16 Dec 1880\n" +
+		"0 @T1@ INDI\n1 NAME Ann /Tie/\n1 BIRT\n2 DATE 16 Dec 1880\n2 DATE Bet. Dec 1880 and 1890\n" +
+		"0 @T2@ INDI\n1 NAME Ann /Tie/\n1 BIRT\n2 DATE Dec 1880\n1 BIRT\n2 DATE 16 Dec 1880\n1 DEAT\n2 DATE 1900\n2 DATE 2 Jul 1900\n" +
+		"0 @T3@ INDI\n1 NAME Ann /Tie/\n1 BIRT\n2 DATE 1881\n" +
+		"0 @T4@ INDI\n1 NAME Ann /Tie/\n1 DEAT\n2 DATE 1881\n" +
+		"0 @T5@ INDI\n" +
+		"0 @T6@ INDI\n1 BIRT\n2 DATE 1884\n" +
+		"0 @T7@ INDI\n1 NAME Ann /Tie/\n1 BAPM\n2 DATE Dec 1883\n2 DATE 16 Dec 1883\n1 BURI\n2 DATE 2 Jul 1903\n2 DATE 1903\n"
+	doc, err := gedcom.NewDocumentFromString(text)
+	if err != nil {
+		panic("c12: tie-shape document does not decode")
+	}
+	indis := doc.Individuals()
+	e := &c12env{ids: map[*gedcom.IndividualNode]int{}}
+	for j, x := range indis {
+		e.ids[x] = j
+	}
+	opts := []c12opts{{def: true},
+		{maxYears: c12rat{3, 1}, minSim: c12rat{1, 2}, minWeighted: c12rat{1, 2}, iw: c12rat{12, 16}, pw: c12rat{1, 16}, sw: c12rat{1, 16}, cw: c12rat{2, 16},
+			ratio: c12rat{0, 1}, boost: c12rat{7, 10}, prefix: 4, prefPtr: c12rat{1, 2}},
+		{maxYears: c12rat{3, 1}, minSim: c12rat{3, 4}, minWeighted: c12rat{3, 4}, iw: c12rat{16, 16}, pw: c12rat{0, 16}, sw: c12rat{0, 16}, cw: c12rat{0, 16},
+			ratio: c12rat{1, 2}, boost: c12rat{0, 1}, prefix: 8, prefPtr: c12rat{3, 4}}}
+	for _, o := range opts {
+		for _, x := range indis {
+			for _, y := range indis {
+				k.indiPair(e, text, x, y, o)
+				c.Count("tie-shape:individuals (estimated date chosen on a tie, exact 1/2 scores)")
+			}
+		}
+		for q := 0; q < 12; q++ {
+			pm1, pm2 := k.r.Perm(len(indis)), k.r.Perm(len(indis))
+			var xs, ys gedcom.IndividualNodes
+			for _, j := range pm1[:2+k.r.Intn(4)] {
+				xs = append(xs, indis[j])
+			}
+			for _, j := range pm2[:2+k.r.Intn(4)] {
+				ys = append(ys, indis[j])
+			}
+			k.listPair(e, text, xs, ys, o)
+			c.Count("tie-shape:lists (cells at the minimum, equal cells from different data)")
+		}
+	}
+}
+
 func c12compare(req, impl, model string) bool {
 	ok, tight := c12compare1(req, impl, model)
 	if !ok && tight {
@@ -1207,13 +1288,16 @@ func c12compare1(req, impl, model string) (bool, bool) {
 func init() {
 	runners["C12"] = func(c *Ctx) {
 		c.Compare = c12compare
-		c12inconclusive = func() { c.Dist["inconclusive (float comparison within 1e-9 of its threshold)"]++ }
+		c12inconclusive = func() {
+			c.Dist["inconclusive (float64 comparison within 1e-9 of its threshold, or a decision on an exact tie of the model)"]++
+		}
 		c.Rule = "strings: every pair over {a,b} up to length 6 (thorough 8) through model and implementation, every pair over {a,b,c} up to length 5 (thorough 7) through the oracle, random strings (length < 24) over small alphabets and their typo-mutations, names with case/punctuation/space runs/Unicode/invalid UTF-8; dates: all pairs of a boundary set, random pairs of every DATE form, distance chains; individuals, lists (with duplicates and shared people), families and surrounding similarity on random family graphs vs an edited copy or an independent graph, default and random options (weights k/20 summing to 1, prefix <= 10, MaxYears > 0); distinct = distinct string pairs / date pairs / (graph, query)"
 		k := &c12run{c: c, r: c.R, laws: map[c12rat][]c12lawPt{}}
 		k.strings()
 		k.dates()
 		k.graphs()
 		k.sharedLists()
+		k.tieShapes()
 		c.Notes = append(c.Notes, "scores compared within 1e-9 of the model's exact fraction; bounds, symmetry, identity, neutral 0.5, cut-off and monotonicity are checked exactly on the float64 values (list/weighted symmetry within 1e-12: summation order)")
 	}
 }
